@@ -872,6 +872,22 @@ def check_codec(ctx, crates):
                 for f in v["fields"]:
                     nm = "%s::%s.%s" % (k, v["name"], f["name"]) if a["kind"] == "enum" else "%s.%s" % (k, f["name"])
                     todo.append(("field", nm, f.get("attrs") or [], f.get("ty"), f.get("line") or a.get("line")))
+            # a rename must not hand an item the wire name one of its siblings goes by (Execute renamed "close" and Close renamed
+            # "execute": every handler is right and every caller reaches the other one)
+            def _norm(x):
+                return x.lower().replace("_", "").replace("-", "")
+            groups_ = [[(v["name"], v.get("attrs") or []) for v in a["variants"]]] if a["kind"] == "enum" else []
+            groups_ += [[(f["name"], f.get("attrs") or []) for f in v["fields"]] for v in a["variants"]]
+            for grp in groups_:
+                for nm_, attrs_ in grp:
+                    for t in attrs_:
+                        for k_, v_ in (_attr_items(t) or []):
+                            if k_ == "rename" and v_ and v_.strip().startswith('"'):
+                                new_ = v_.strip().strip('"')
+                                clash = [o for o, _ in grp if o != nm_ and _norm(o) == _norm(new_)]
+                                if clash:
+                                    ctx.ob("CODEC", "rename %s::%s" % (k, nm_), False, sites=[site],
+                                           detail="%s::%s is renamed %r on the wire, the name its sibling `%s` is known by" % (k, nm_, new_, clash[0]))
             for where, nm, attrs, fty, line in todo:
                 items = []
                 for t in attrs:
@@ -882,6 +898,21 @@ def check_codec(ctx, crates):
                     continue
                 n_attr += 1
                 why = _codec_verdict(where, items, fty)
+                dflt = dict(items).get("default")
+                if why is None and where == "field" and dflt and (fty or "").startswith(("std::option::Option<", "core::option::Option<")):
+                    # an optional field the sender left out is None to every handler - unless a default function says otherwise
+                    fn_ = dflt.strip().strip('"').split("::")[-1]
+                    cands = [b for pth, b in F.bodies.items() if pth.endswith("::" + fn_) and b.kind == "fn" and b.crate == k.split("::")[0]]
+                    rets = None
+                    if len(cands) == 1:
+                        try:
+                            rets = set(p_.ret for p_ in ctx.engine.summarise(cands[0]))
+                        except Exception:
+                            rets = None
+                    from .engine import NONE as _NONE
+                    if rets != {_NONE}:
+                        why = "`default = %s`: an omitted optional field reads as %s, not as None" % (
+                            dflt, ", ".join(show(r)[:60] for r in rets) if rets else "whatever that function returns (not analysable)")
                 if why is not None:
                     ctx.ob("CODEC", "%s %s" % (where, nm), False, detail="%s carries serde %s" % (nm, why),
                            sites=[(a.get("file") or "?", line or 0, k)])
